@@ -34,6 +34,8 @@ enum E {
     TupF(&'static str, usize),
     Fld(usize),
     QF(Ix, usize),
+    /// m[i][j] of the nested array m: [[u8; 2]; 3]
+    M(Ix, Ix),
     Bin(&'static str, Box<E>, Box<E>),
     AddLow(Box<E>, Box<E>),
     IfE(Box<C>, Box<E>, Box<E>),
@@ -65,6 +67,7 @@ enum Place {
     TupF(&'static str, usize),
     Fld(usize),
     QF(Ix, usize),
+    M(Ix, Ix),
 }
 
 #[derive(Clone, Debug)]
@@ -129,7 +132,8 @@ fn e_src(e: &E) -> String {
         E::Idx(a, ix) => format!("{a}[{}]", ix_src(ix, 3)),
         E::TupF(t, i) => format!("{t}.{i}"),
         E::Fld(i) => format!("p.{}", ["a", "b", "c"][*i]),
-        E::QF(ix, i) => format!("q[{}].{i}", ix_src(ix, 2)),
+        E::QF(ix, i) => format!("q[{}].{i}", ix_src(ix, 3)),
+        E::M(i, j) => format!("m[{}][{}]", ix_src(i, 3), ix_src(j, 2)),
         E::Bin(op, a, b) => format!("({} {op} {})", e_src(a), e_src(b)),
         E::AddLow(a, b) => format!("(({} & 15u8) + ({} & 15u8))", e_src(a), e_src(b)),
         E::IfE(c, a, b) => format!("(if {} {{ {} }} else {{ {} }})", c_src(c), e_src(a), e_src(b)),
@@ -160,7 +164,8 @@ fn place_src(p: &Place) -> String {
         Place::Idx(a, ix) => format!("{a}[{}]", ix_src(ix, 3)),
         Place::TupF(t, i) => format!("{t}.{i}"),
         Place::Fld(i) => format!("p.{}", ["a", "b", "c"][*i]),
-        Place::QF(ix, i) => format!("q[{}].{i}", ix_src(ix, 2)),
+        Place::QF(ix, i) => format!("q[{}].{i}", ix_src(ix, 3)),
+        Place::M(i, j) => format!("m[{}][{}]", ix_src(i, 3), ix_src(j, 2)),
     }
 }
 
@@ -178,7 +183,7 @@ fn s_src(s: &S, ind: usize, acc: &str, out: &mut Vec<String>) {
         S::LetU8(n, mu, e) => out.push(format!("{pad}let {}{n} = {};", m(mu), e_src(e))),
         S::LetAgg(n, mu, a) => out.push(format!("{pad}let {}{n} = {};", m(mu), agg_src(a, is_tuple_name(n)))),
         S::LetP(mu, a, b, c) => out.push(format!("{pad}let {}p = P {{ a: {}, b: {}, c: {} }};", m(mu), e_src(a), e_src(b), e_src(c))),
-        S::LetQ(mu, es) => out.push(format!("{pad}let {}q = [({}, {}), ({}, {})];", m(mu), e_src(&es[0]), e_src(&es[1]), e_src(&es[2]), e_src(&es[3]))),
+        S::LetQ(mu, es) => out.push(format!("{pad}let {}q = [({}, {}), ({}, {}), ({}, {})];", m(mu), e_src(&es[0]), e_src(&es[1]), e_src(&es[2]), e_src(&es[3]), e_src(&es[4]), e_src(&es[5]))),
         S::Assign(p, e) => out.push(format!("{pad}{} = {};", place_src(p), e_src(e))),
         S::OpAssign(p, op, e) => out.push(format!("{pad}{} {op}= {};", place_src(p), e_src(e))),
         S::AssignAgg(n, a) => out.push(format!("{pad}{n} = {};", agg_src(a, is_tuple_name(n)))),
@@ -239,7 +244,7 @@ fn s_src(s: &S, ind: usize, acc: &str, out: &mut Vec<String>) {
     }
 }
 
-const OUTPUTS: usize = 21;
+const OUTPUTS: usize = 29;
 
 pub fn program_src(p: &Program) -> String {
     let mut out = vec![format!("const K: u8 = {K_VALUE}u8;"), "struct P { a: u8, b: u8, c: u8 }".to_string()];
@@ -254,14 +259,14 @@ pub fn program_src(p: &Program) -> String {
     out.push(format!("pub fn main(a0: u8, a1: u8, c: bool) -> ({}) {{", vec!["u8"; OUTPUTS].join(", ")));
     for l in [
         "let mut acc = 0u8;", "let mut x = a0;", "let mut y = a1;", "let mut z = a0 ^ a1;", "let mut arr = [a0, a1, 7u8];", "let mut brr = [a1, 9u8, a0];",
-        "let mut t = (a1, a0);", "let mut u = (3u8, a1);", "let mut p = P { a: a0, b: 3u8, c: a1 };", "let mut q = [(a0, 1u8), (2u8, a1)];",
+        "let mut t = (a1, a0);", "let mut u = (3u8, a1);", "let mut p = P { a: a0, b: 3u8, c: a1 };", "let mut q = [(a0, 1u8), (2u8, a1), (a1, a0)];", "let mut m = [[a0, 1u8], [a1, 2u8], [3u8, a0]];",
     ] {
         out.push(format!("    {l}"));
     }
     for s in &p.main {
         s_src(s, 1, "acc", &mut out);
     }
-    out.push("    (acc, x, y, z, arr[0], arr[1], arr[2], brr[0], brr[1], brr[2], t.0, t.1, u.0, u.1, p.a, p.b, p.c, q[0].0, q[0].1, q[1].0, q[1].1)".to_string());
+    out.push("    (acc, x, y, z, arr[0], arr[1], arr[2], brr[0], brr[1], brr[2], t.0, t.1, u.0, u.1, p.a, p.b, p.c, q[0].0, q[0].1, q[1].0, q[1].1, q[2].0, q[2].1, m[0][0], m[0][1], m[1][0], m[1][1], m[2][0], m[2][1])".to_string());
     out.push("}".to_string());
     out.join("\n")
 }
@@ -312,8 +317,13 @@ impl Interp<'_> {
             }
             E::TupF(t, i) => match lookup(env, t) { V::L(vs) => u8_of(&vs[*i]), _ => unreachable!() },
             E::Fld(i) => match lookup(env, "p") { V::L(vs) => u8_of(&vs[*i]), _ => unreachable!() },
+            E::M(i, j) => {
+                let a = self.ix(env, i, 3);
+                let b = self.ix(env, j, 2);
+                match lookup(env, "m") { V::L(vs) => match &vs[a] { V::L(es) => u8_of(&es[b]), _ => unreachable!() }, _ => unreachable!() }
+            }
             E::QF(ix, i) => {
-                let j = self.ix(env, ix, 2);
+                let j = self.ix(env, ix, 3);
                 match lookup(env, "q") { V::L(vs) => match &vs[j] { V::L(fs) => u8_of(&fs[*i]), _ => unreachable!() }, _ => unreachable!() }
             }
             E::Bin(op, a, b) => {
@@ -372,8 +382,13 @@ impl Interp<'_> {
             }
             Place::TupF(t, i) => match lookup(env, t) { V::L(vs) => &mut vs[*i], _ => unreachable!() },
             Place::Fld(i) => match lookup(env, "p") { V::L(vs) => &mut vs[*i], _ => unreachable!() },
+            Place::M(i, j) => {
+                let a = self.ix(env, i, 3);
+                let b = self.ix(env, j, 2);
+                match lookup(env, "m") { V::L(vs) => match &mut vs[a] { V::L(es) => &mut es[b], _ => unreachable!() }, _ => unreachable!() }
+            }
             Place::QF(ix, i) => {
-                let j = self.ix(env, ix, 2);
+                let j = self.ix(env, ix, 3);
                 match lookup(env, "q") { V::L(vs) => match &mut vs[j] { V::L(fs) => &mut fs[*i], _ => unreachable!() }, _ => unreachable!() }
             }
         }
@@ -410,7 +425,7 @@ impl Interp<'_> {
             }
             S::LetQ(_, es) => {
                 let vs: Vec<u8> = es.iter().map(|e| self.e(env, e)).collect();
-                let v = V::L(vec![V::L(vec![V::U(vs[0]), V::U(vs[1])]), V::L(vec![V::U(vs[2]), V::U(vs[3])])]);
+                let v = V::L(vec![V::L(vec![V::U(vs[0]), V::U(vs[1])]), V::L(vec![V::U(vs[2]), V::U(vs[3])]), V::L(vec![V::U(vs[4]), V::U(vs[5])])]);
                 env.last_mut().unwrap().insert("q", v);
             }
             S::Assign(p, e) => {
@@ -501,7 +516,8 @@ pub fn reference(p: &Program, a0: u8, a1: u8, flag: bool) -> Vec<u8> {
     main.insert("t", V::L(vec![u(a1), u(a0)]));
     main.insert("u", V::L(vec![u(3), u(a1)]));
     main.insert("p", V::L(vec![u(a0), u(3), u(a1)]));
-    main.insert("q", V::L(vec![V::L(vec![u(a0), u(1)]), V::L(vec![u(2), u(a1)])]));
+    main.insert("q", V::L(vec![V::L(vec![u(a0), u(1)]), V::L(vec![u(2), u(a1)]), V::L(vec![u(a1), u(a0)])]));
+    main.insert("m", V::L(vec![V::L(vec![u(a0), u(1)]), V::L(vec![u(a1), u(2)]), V::L(vec![u(3), u(a0)])]));
     let mut env = vec![globals(), main];
     for s in &p.main {
         it.s(&mut env, s, "acc");
@@ -510,7 +526,7 @@ pub fn reference(p: &Program, a0: u8, a1: u8, flag: bool) -> Vec<u8> {
     fn flat(v: &V, out: &mut Vec<u8>) {
         match v { V::U(n) => out.push(*n), V::L(vs) => vs.iter().for_each(|v| flat(v, out)) }
     }
-    for n in ["acc", "x", "y", "z", "arr", "brr", "t", "u", "p", "q"] {
+    for n in ["acc", "x", "y", "z", "arr", "brr", "t", "u", "p", "q", "m"] {
         flat(lookup(&mut env, n), &mut out);
     }
     out
@@ -572,7 +588,7 @@ impl Gen<'_> {
                 if names.is_empty() { E::Lit(6) } else { E::TupF(self.pick(&names), self.rng.below(2)) }
             }
             5 => if self.is_vis("p").is_some() { E::Fld(self.rng.below(3)) } else { E::Lit(8) },
-            6 => if self.is_vis("q").is_some() { let ix = self.ix(2, d); E::QF(ix, self.rng.below(2)) } else { E::Lit(9) },
+            6 => if self.rng.below(2) == 0 && self.is_vis("m").is_some() { let i = self.ix(3, d); let j = self.ix(2, d); E::M(i, j) } else if self.is_vis("q").is_some() { let ix = self.ix(3, d); E::QF(ix, self.rng.below(2)) } else { E::Lit(9) },
             7 | 8 => E::Bin(self.pick(&["^", "&", "|"]), Box::new(self.e(d + 1)), Box::new(self.e(d + 1))),
             9 => E::AddLow(Box::new(self.e(d + 1)), Box::new(self.e(d + 1))),
             10 => E::IfE(Box::new(self.c(d + 2, false)), Box::new(self.e(d + 1)), Box::new(self.e(d + 1))),
@@ -629,7 +645,7 @@ impl Gen<'_> {
                     if !names.is_empty() { return Some(Place::TupF(self.pick(&names), self.rng.below(2))); }
                 }
                 4 => if self.is_vis("p") == Some(true) { return Some(Place::Fld(self.rng.below(3))); },
-                _ => if self.is_vis("q") == Some(true) { let ix = self.ix(2, d); return Some(Place::QF(ix, self.rng.below(2))); },
+                _ => if self.rng.below(2) == 0 && self.is_vis("m") == Some(true) { let i = self.ix(3, d); let j = self.ix(2, d); return Some(Place::M(i, j)); } else if self.is_vis("q") == Some(true) { let ix = self.ix(3, d); return Some(Place::QF(ix, self.rng.below(2))); },
             }
         }
         None
@@ -702,7 +718,7 @@ impl Gen<'_> {
                 S::LetP(mu, a, b, c)
             }
             10 => {
-                let es = (0..4).map(|_| self.e(d + 1)).collect();
+                let es = (0..6).map(|_| self.e(d + 1)).collect();
                 let mu = self.rng.below(3) > 0;
                 self.declare("q", mu);
                 S::LetQ(mu, es)
@@ -778,7 +794,7 @@ pub fn random_program(rng: &mut Rng) -> Program {
         helpers.push(Func { body, ret });
     }
     let mut main_vis = HashMap::new();
-    for n in ["acc", "x", "y", "z", "arr", "brr", "t", "u", "p", "q"] {
+    for n in ["acc", "x", "y", "z", "arr", "brr", "t", "u", "p", "q", "m"] {
         main_vis.insert(n, true);
     }
     let budget = 4 + rng.below(9);
@@ -816,7 +832,7 @@ pub fn run_real(src: &str, a0: u8, a1: u8, flag: bool, n_out: usize) -> Option<R
     Some(Ok((out[0], vals)))
 }
 
-const NAMES: [&str; OUTPUTS] = ["acc", "x", "y", "z", "arr[0]", "arr[1]", "arr[2]", "brr[0]", "brr[1]", "brr[2]", "t.0", "t.1", "u.0", "u.1", "p.a", "p.b", "p.c", "q[0].0", "q[0].1", "q[1].0", "q[1].1"];
+const NAMES: [&str; OUTPUTS] = ["acc", "x", "y", "z", "arr[0]", "arr[1]", "arr[2]", "brr[0]", "brr[1]", "brr[2]", "t.0", "t.1", "u.0", "u.1", "p.a", "p.b", "p.c", "q[0].0", "q[0].1", "q[1].0", "q[1].1", "q[2].0", "q[2].1", "m[0][0]", "m[0][1]", "m[1][0]", "m[1][1]", "m[2][0]", "m[2][1]"];
 
 /// Ok(true): checked, Ok(false): rejected by the compiler (not this property), Err: a difference
 pub fn check_program(p: &Program, inputs: &[(u8, u8, bool)]) -> Result<bool, String> {
